@@ -30,7 +30,7 @@ Print Assumptions C04_window.
 Theorem C04_live :
   forall l s h,
   (fc l = -1 \/ cnt s < fc l) -> in_window l (h_ts h) = true ->
-  (lastf s = 0 \/ h_ts h - lastf s >= fp l * 1000000) -> h_cond h = true ->
+  (lastf s = 0 \/ fp l * 1000000 <= 0 \/ h_ts h - lastf s >= fp l * 1000000) -> h_cond h = true ->
   step l s h = (fire s (h_ts h), true).
 Proof. exact step_live. Qed.
 Print Assumptions C04_live.
@@ -75,7 +75,7 @@ Print Assumptions C04_the_code_is_the_model.
 Theorem C04_the_code_allows_only_within_limits :
   forall fc fp ws we cnt lastf ts,
   gen_can_trigger fc fp ws we cnt lastf ts = true ->
-  (fc = -1 \/ cnt < fc) /\ gen_in_window ws we ts = true /\ (lastf = 0 \/ fp * 1000000 <= ts - lastf).
+  (fc = -1 \/ cnt < fc) /\ gen_in_window ws we ts = true /\ (lastf = 0 \/ fp * 1000000 <= 0 \/ fp * 1000000 <= ts - lastf).
 Proof. exact code_can_trigger_sound. Qed.
 Print Assumptions C04_the_code_allows_only_within_limits.
 
@@ -104,3 +104,12 @@ Theorem C04_the_code_defaults :
    (exists s, alookup [102;105;114;101;95;112;101;114;105;111;100] c = Some (AText s) /\ parse_int s = None) -> gen_fire_period c = 1000).
 Proof. exact code_defaults. Qed.
 Print Assumptions C04_the_code_defaults.
+
+(* without a period there is nothing to keep apart: a hit that the count and the window allow collects whatever time it carries -
+   also a time BEFORE the last recorded fire (a thread that was overtaken between reading the clock and claiming the fire, a clock
+   that was set back) *)
+Theorem C04_without_a_period_a_stale_hit_collects :
+  forall l s h, (fc l = -1 \/ cnt s < fc l) -> in_window l (h_ts h) = true -> fp l <= 0 -> h_cond h = true ->
+  step l s h = (fire s (h_ts h), true).
+Proof. intros l s h A B C D. apply step_live; auto. right. left. lia. Qed.
+Print Assumptions C04_without_a_period_a_stale_hit_collects.
